@@ -574,7 +574,7 @@ var clauseKeywords = map[string]bool{
 	"requires": true, "ensures": true, "modifies": true, "invariant": true, "decreases": true,
 	"panics_only_if": true, "ghost": true, "pred": true, "ufunc": true, "axiom": true, "lemma": true,
 	"type": true, "guarded": true, "func": true, "model": true, "inline": true, "trusted": true,
-	"pure": true, "closure": true, "end": true, "flag": true, "assume": true, "iface": true, "assert": true,
+	"pure": true, "closure": true, "end": true, "flag": true, "assume": true, "iface": true, "assert": true, "hint": true,
 }
 
 // extractSpecBlocks returns the text inside /*@ ... @*/ blocks with line numbers preserved.
@@ -714,7 +714,7 @@ func ParseContractFile(path, src string) (cf *ContractFile, err error) {
 			}
 			name, text := splitLabel(it.text)
 			cur.Clauses = append(cur.Clauses, &Clause{Kind: it.kw, Text: text, Expr: pe(it, text), Name: name, Line: it.line})
-		case "invariant", "decreases":
+		case "invariant", "decreases", "hint":
 			if cur == nil {
 				fail(it, "%s outside func", it.kw)
 			}
